@@ -351,22 +351,17 @@ theorem lowerByte_digit (c : Nat) (h : isDigit c = true) : lowerByte c = c := by
   have : ¬ (65 ≤ c ∧ c ≤ 90) := by omega
   simp [this]
 
-theorem startsCi_lit (l : PlainLit) (hwf : l.WF) (kw : List Nat) (hkw : kw.length = 4)
-    (h0 : kw.head? = some 46) (h1 : ∀ d, isDigit d = true → (kw.drop 1).head? ≠ some d) :
-    startsCi l.body kw = .ok false := by
-  have hall : ∀ c ∈ l.body, allowed c = true := by
-    intro c hc
-    exact allowed_render l hwf c (by simp [PlainLit.render, hc])
-  have hn := noCont_of_allowed hall
+/-- a text starting with a digit, or with '.' and a digit, does not start with `.inf` / `.nan` -/
+theorem startsCi_head (rest kw : List Nat) (hkw : kw.length = 4)
+    (h0 : kw.head? = some 46) (h1 : ∀ d, isDigit d = true → (kw.drop 1).head? ≠ some d)
+    (hh : ∃ c r, rest = c :: r ∧ (isDigit c = true ∨ (c = 46 ∧ ∃ d r', r = d :: r' ∧ isDigit d = true))) :
+    startsCi rest kw = false := by
   unfold startsCi
   split
   · rfl
   · rename_i hlen
-    rw [boundaryAhead_of_noCont hn 0 (by omega), boundaryAhead_of_noCont hn kw.length (by omega)]
-    simp only [Bool.and_self, Bool.not_true, Bool.false_eq_true, ↓reduceIte]
-    congr 1
     rw [beq_eq_false_iff_ne]
-    obtain ⟨c, r, hb, hc⟩ := body_head l hwf
+    obtain ⟨c, r, hb, hc⟩ := hh
     rw [hb, hkw]
     match kw, hkw, h0, h1 with
     | [k0, k1, k2, k3], _, h0, h1 =>
@@ -385,6 +380,11 @@ theorem startsCi_lit (l : PlainLit) (hwf : l.WF) (kw : List Nat) (hkw : kw.lengt
         have := heq.2.1
         rw [lowerByte_digit d hd] at this
         exact h1 d hd (by simp [this])
+
+theorem startsCi_lit (l : PlainLit) (hwf : l.WF) (kw : List Nat) (hkw : kw.length = 4)
+    (h0 : kw.head? = some 46) (h1 : ∀ d, isDigit d = true → (kw.drop 1).head? ≠ some d) :
+    startsCi l.body kw = false :=
+  startsCi_head l.body kw hkw h0 h1 (body_head l hwf)
 
 theorem tail_head_ne_colon (l : PlainLit) : ((l.fracBytes ++ l.expBytes).head? != some 58) = true := by
   rcases fracDigits_eq l with ⟨h1, _⟩ | h1
@@ -492,9 +492,8 @@ theorem parseNumberOrSpecial_lit (tag : Nat) (l : PlainLit) (hwf : l.WF) (hcap :
   unfold parseNumberOrSpecial
   simp only []
   rw [startsCi_lit l hwf [46, 105, 110, 102] rfl rfl (by intro d hd h; cases h; simp [isDigit] at hd)]
-  simp only [HRes.lift, Res.bind, Bool.false_eq_true, ↓reduceIte]
   rw [startsCi_lit l hwf [46, 110, 97, 110] rfl rfl (by intro d hd h; cases h; simp [isDigit] at hd)]
-  simp only [HRes.lift, Res.bind, Bool.false_eq_true, ↓reduceIte]
+  simp only [Bool.false_eq_true, ↓reduceIte]
   rw [trySexagesimal_lit tag l hwf]
   simp only [Res.bind]
   have hb : l.body = l.ip ++ (l.fracBytes ++ l.expBytes) := by simp [PlainLit.body]
@@ -668,16 +667,23 @@ theorem signed_value (l : PlainLit) :
       rw [show ONE = ofNat binary64 1 from rfl, C19F.mul_neg_one _ hwf, neg_decRound]
       rfl
 
-/-- (T) the evaluator on an ordinary literal (any tag but `!degrees`): its exact value, correctly rounded. -/
-theorem evalExpr_lit (tag : Nat) (htag : tag ≠ TAG_DEGREES) (l : PlainLit) (hwf : l.WF)
-    (hcap : l.digitCount ≤ MAX_NUM_DIGITS) :
-    evalExpr tag l.render = .ok (l.value binary64) := by
+/-- (T) the evaluator on an ordinary literal: its exact value, correctly rounded — converted to radians
+(one multiplication by `DEG2RAD`) under the `!degrees` tag. -/
+theorem evalExpr_lit_any (tag : Nat) (l : PlainLit) (hwf : l.WF) (hcap : l.digitCount ≤ MAX_NUM_DIGITS) :
+    evalExpr tag l.render =
+      .ok (if tag == TAG_DEGREES then mul F (l.value binary64) DEG2RAD else l.value binary64) := by
   unfold evalExpr
   simp only []
   rw [skipWs_noop _ (by intro c r h; exact render_head_ws l hwf c r h)]
   obtain ⟨p1, he⟩ := expr_lit tag l.render.length MAX_EXPR_DEPTH l hwf hcap [] 0 true
   rw [he]
+  simp [Res.bind, St.skipWs, skipWsL, signed_value]
+
+theorem evalExpr_lit (tag : Nat) (htag : tag ≠ TAG_DEGREES) (l : PlainLit) (hwf : l.WF)
+    (hcap : l.digitCount ≤ MAX_NUM_DIGITS) :
+    evalExpr tag l.render = .ok (l.value binary64) := by
+  rw [evalExpr_lit_any tag l hwf hcap]
   have ht : (tag == TAG_DEGREES) = false := by simpa using htag
-  simp [Res.bind, St.skipWs, skipWsL, ht, signed_value]
+  simp [ht]
 
 end SaphyrVerif.Lemmas.C19L
